@@ -41,7 +41,8 @@ def model_snapshot(bn):
 
 # ----------------------------------------------------------------------------- purity
 CALLS = ["ve_query", "ve_map", "bp_query", "causal", "sample", "score", "mle", "hc", "bif", "xmlbif", "uai", "to_mn", "to_jt",
-         "moralize", "predict", "check", "copy", "fit_update", "bayes_est", "ve_virtual", "simulate", "get_state_prob"]
+         "moralize", "predict", "check", "copy", "fit_update", "bayes_est", "ve_virtual", "simulate", "get_state_prob", "factor_ops", "factor_ops",
+         "bic", "pc"]
 
 
 def gen_purity(rng, tier):
@@ -54,6 +55,7 @@ def gen_purity(rng, tier):
     ev = rng.sample(rest, min(len(rest), rng.choice([0, 1])))
     case["ev"] = [[v, rng.randrange(case["card"][v])] for v in ev]
     case["rows"] = [[rng.randrange(case["card"][v]) for v in range(n)] for _ in range(rng.randint(8, 20))]
+    case["frame"] = rng.choice(["category", "int", "int"])        # dtype of the data frame handed to estimators / scores
     return case
 
 
@@ -74,6 +76,9 @@ def run_purity(case, drv):
     bn = gen.bn_to_pgmpy(case)
     df = pd.DataFrame({pn[v]: pd.Categorical([gen.lab(labels[v][r[v]]) for r in case["rows"]],
                                              categories=[gen.lab(l) for l in labels[v]]) for v in range(n)})
+    if case.get("frame") == "int" and all(isinstance(gen.lab(l), int) for ls in labels for l in ls):
+        # plain integer columns: the caller's frame must keep its values AND its dtypes
+        df = pd.DataFrame({pn[v]: np.array([gen.lab(labels[v][r[v]]) for r in case["rows"]], dtype="int64") for v in range(n)})
     evidence = {pn[v]: gen.lab(labels[v][i]) for v, i in case["ev"]}
     qv = [pn[v] for v in case["q"]]
     conn = c03_connected(n, case["edges"])
@@ -128,6 +133,32 @@ def run_purity(case, drv):
                 HillClimbSearch(df).estimate(scoring_method="k2", start_dag=start, max_iter=5, show_progress=False)
                 if (sorted(map(repr, start.nodes())), sorted(map(repr, start.edges()))) != extra:
                     return fail("HillClimbSearch.estimate modified the caller's start_dag", call=call)
+            elif call == "bic":
+                from pgmpy.estimators import BicScore
+                BicScore(df).score(bn)
+            elif call == "pc":
+                from pgmpy.estimators import PC
+                PC(df).estimate(ci_test="chi_square", max_cond_vars=1, show_progress=False, n_jobs=1)
+            elif call == "factor_ops":
+                from pgmpy.factors.discrete import DiscreteFactor
+                big = max(bn.cpds, key=lambda c_: len(c_.variables)).to_factor()
+                vs = list(big.variables)[::-1]                 # the same scope, listed in the opposite order
+                perm = [list(big.variables).index(x) for x in vs]
+                g = DiscreteFactor(vs, [int(big.get_cardinality([x])[x]) for x in vs],
+                                   np.transpose(np.asarray(big.values, dtype=float) + 1.0, perm),
+                                   state_names={x: list(big.state_names[x]) for x in vs})
+                f0, g0 = snapshot(big), snapshot(g)
+                gshape = (list(g.variables), [int(x) for x in g.cardinality], tuple(np.asarray(g.values).shape))
+                for opn in ("divide", "sum", "product"):
+                    getattr(big, opn)(g, inplace=False)
+                    if snapshot(big) != f0 or snapshot(g) != g0 or \
+                            (list(g.variables), [int(x) for x in g.cardinality], tuple(np.asarray(g.values).shape)) != gshape:
+                        return fail(f"DiscreteFactor.{opn}(other, inplace=False) changed one of its operands "
+                                    f"(second operand now {list(g.variables)} card {list(g.cardinality)} shape {np.asarray(g.values).shape})", call=call)
+                big / g
+                big + g
+                if snapshot(g) != g0 or (list(g.variables), [int(x) for x in g.cardinality], tuple(np.asarray(g.values).shape)) != gshape:
+                    return fail("the operators / and + changed their second operand", call=call)
             elif call == "bif":
                 BIFWriter(bn).__str__()
             elif call == "xmlbif":
@@ -167,8 +198,9 @@ def run_purity(case, drv):
         if model_snapshot(bn) != s0:
             return fail(f"{call} changed the content of the model it was given" + (f" (call raised {extra})" if isinstance(extra, str) else ""),
                         call=call)
-        if not df.equals(d0) or list(df.columns) != list(d0.columns):
-            return fail(f"{call} changed the data frame it was given", call=call)
+        if not df.equals(d0) or list(df.columns) != list(d0.columns) or list(map(str, df.dtypes)) != list(map(str, d0.dtypes)) or \
+                list(df.index) != list(d0.index):
+            return fail(f"{call} changed the data frame it was given (dtypes {list(map(str, d0.dtypes))} -> {list(map(str, df.dtypes))})", call=call)
         if evidence != ev0:
             return fail(f"{call} changed the evidence dict it was given", call=call)
     # after all calls the model still answers like the Lean model
